@@ -30,6 +30,8 @@ var textCodecs = []textCodec{
 	{"gsm7packed", func(s string) datacoding.Codec { return datacoding.GSM7Packed(s) }},
 }
 
+var latin1Codec = textCodecs[1]
+
 // roundTrip: ok=false means the encoder refused; otherwise the decoded text.
 func roundTrip(c textCodec, text string) (enc []byte, refused bool, back string, decErr bool, panicked bool) {
 	o := Guard(func() {
@@ -139,6 +141,18 @@ func runC05(res *Result, d *Driver, g *Rng, tier string) {
 					goOut = append(goOut, hx(enc))
 				}
 			}
+			// Windows-1252 against the model's code-page table: every scalar up to U+33FF, the table's own
+			// entries, and a sample of everything else (refusals included)
+			if r < 0x3400 || i%11 == 0 {
+				enc, refused, _, _, pn := roundTrip(latin1Codec, text)
+				if !pn {
+					out := hx(enc)
+					if refused {
+						out = "err"
+					}
+					ops, goOut = append(ops, "text enc latin1 "+cpsOf(text)), append(goOut, out)
+				}
+			}
 			// model: refusal too
 			if r >= 0x80 && r < 0x100 && ctx == "%s" {
 				ops, goOut = append(ops, "text enc ascii "+cpsOf(text)), append(goOut, "err")
@@ -147,6 +161,18 @@ func runC05(res *Result, d *Driver, g *Rng, tier string) {
 	}
 	for _, c := range textCodecs {
 		res.Count(fmt.Sprintf("accepted-scalars:%s=%d", c.name, accepted[c.name]))
+	}
+	// Windows-1252 decoding: every octet value, alone and in context
+	for b := 0; b < 256; b++ {
+		for _, img := range [][]byte{{byte(b)}, {'a', byte(b), 'z'}, {byte(b), byte(255 - b)}} {
+			back, err := datacoding.Latin1(img).Decode()
+			out := cpsOf(string(back))
+			if err != nil {
+				out = "err"
+			}
+			res.Eval("latin1dec/"+hx(img), true)
+			ops, goOut = append(ops, "text dec latin1 "+hx(img)), append(goOut, out)
+		}
 	}
 	// the three UTF-8 → UCS-2 helpers agree with the UCS2 codec
 	for i, r := range scalars {
@@ -193,7 +219,7 @@ func runC05(res *Result, d *Driver, g *Rng, tier string) {
 			res.Violate("C05.codec-panics:"+c.name, "", []string{"text enc " + c.name + " " + cpsOf(text)})
 			continue
 		}
-		if c.name == "ascii" || c.name == "ucs2" {
+		if c.name == "ascii" || c.name == "ucs2" || c.name == "latin1" {
 			out := hx(enc)
 			if refused {
 				out = "err"
